@@ -272,7 +272,7 @@ def main(tier):
     for r in out:
         by.setdefault(r['tid'], []).append(r)
     ntrans = 0
-    for r in common.pool_map(lockstep, sorted(by.items()), chunk=4, per_case=90 if tier == 'quick' else 600):
+    for r in common.pool_map(lockstep, sorted(by.items()), chunk=4, per_case=25 if tier == 'quick' else 300):
         if '_crash' in r:
             raise tlc.TLCFailure('harness crash: %s' % repr(r)[:1500])
         if '_timeout' in r:
@@ -287,7 +287,7 @@ def main(tier):
                          'from': b['step']['from'], 'why': b['why']})
     # random larger trees / histories, validated by TLC
     hs = common.pool_map(random_history, [common.seed() * 100003 + i for i in range(150 if tier == 'quick' else 1500)],
-                         chunk=10, per_case=120)
+                         chunk=10, per_case=40 if tier == 'quick' else 120)
     traces = []
     for h in hs:
         if '_crash' in h or '_timeout' in h:
